@@ -144,6 +144,7 @@ func main() {
 	if *fine || bs < 1 {
 		bs = 1
 	}
+	go blockedMonitor()
 	for b := *from; b < *to; b += bs {
 		e := b + bs
 		if e > *to {
@@ -154,6 +155,7 @@ func main() {
 		t0 := cpuMs()
 		for i := b; i < e; i++ {
 			r := runCase(p, *tier, *seed, i)
+			casesDone.Add(1)
 			blk.Keys = append(blk.Keys, r.Keys...)
 			for _, f := range r.Fails {
 				f.Idx = i
